@@ -196,6 +196,8 @@ def run(ctx):
     ctx.rule("R8", "an acknowledgement treats every unacknowledged colour alike: the colour tests of ack_rcvd compare with Recved (and with "
                    "Pending in its debug assertions) only — whether the rest of a partly acknowledged segment is split off must not "
                    "depend on that segment being Flighting rather than Lost")
+    ctx.rule("R9", "indices die with a drain: after `self.0.drain(..)` removed map entries, no index computed before it is used again "
+                   "(no same_before / same_after / merge_after call is reachable from a drain in the same body)")
     ctx.rule("R6", "write keeps the bytes it announces: extend_to and push_back run together; is_all_rcvd is `data.is_empty()`")
     names = variant_names(prog, SB + "::Color") or {}
     # ---------------------------------------------------------------- R1
@@ -414,6 +416,21 @@ def run(ctx):
                    "from the `entry.offset < end` arm (bb%d) the function can return without going round the loop again or passing may_lost_from (return blocks reached: %s) — the part of "
                    "the lost range behind that entry keeps its Flighting colour: reported lost, never offered again, and the stream "
                    "can never complete" % (tgt, leak[:6] or "none"))
+    # ---------------------------------------------------------------- R9
+    n9 = 0
+    for b in bm:
+        drains = call_blocks(b, r"VecDeque(<.*>|::<.*>)?::drain$")
+        if not drains:
+            continue
+        n9 += 1
+        ctx.touch(b)
+        idx_users = [(i, t) for i, t in b.calls() if re.search(r"BufMap::(same_before|same_after|merge_after)$", callee(t))]
+        late = [(i, callee(t).split("::")[-1]) for (i, t) in idx_users if any(i in b.reachable_from(b.term(d)["to"]) for d in drains if b.term(d).get("to") is not None)]
+        ctx.ob("R9", "%s|no index-based helper after drain" % b.short, not late, b.where(),
+               "drain at %s; index-taking helpers reachable after it: %s — after entries have been drained every index at or beyond the "
+               "drained range names a different entry: a merge done with a stale index deletes the entry of a neighbouring, "
+               "unacknowledged range, which then counts as acknowledged" % (drains, late or "none"))
+    ctx.floor("R9", "BufMap bodies that drain entries", n9, 4)
     # ---------------------------------------------------------------- R8
     ar = ctx.anchor("R8", SB + "::BufMap::ack_rcvd")
     if ar:
